@@ -11,7 +11,6 @@ type vtimer struct {
 	period  int64
 }
 
-func (t *vtimer) firedPending() bool { return false }
 
 type vclock struct {
 	i      *interpreter
@@ -81,7 +80,3 @@ func (c *vclock) advance(d int64) {
 	c.now = target
 }
 
-func (i *interpreter) timeValue(ns int64) value {
-	i.unsupported("time.Time values are not modelled yet")
-	return nil
-}
